@@ -401,6 +401,9 @@ impl Ix {
                 }
             }
         }
+        if crate::apply::route(3) == 0 {
+            return ix.take();
+        }
         ix
     }
 }
@@ -447,6 +450,9 @@ impl Fk {
         }
         if let Some(x) = self.on_update {
             fk.on_update(x);
+        }
+        if crate::apply::route(3) == 0 {
+            return fk.take();
         }
         fk
     }
@@ -519,6 +525,10 @@ impl Tbl {
         }
         if let Some(e) = &self.charset {
             t.character_set(e.as_str());
+        }
+        // the documented way of finishing a builder chain: take() instead of keeping the builder
+        if crate::apply::route(3) == 0 {
+            return t.take();
         }
         t
     }
